@@ -275,7 +275,7 @@ func c10Run13(rc *RunCtx, p *C10Params, cfg DataCfg) {
 			var uerr error
 			conn := pair.ConnOf(ep)
 			s.Go(ep+"-update", func() {
-				ctx, cancel := context.WithTimeout(context.Background(), time.Minute)
+				ctx, cancel := context.WithTimeout(context.Background(), s.Uniq(time.Minute))
 				uerr = conn.UpdateKeys(ctx, dtls.KeyUpdateOptions{RequestPeerUpdate: round%2 == 1})
 				cancel()
 				done = true
